@@ -247,6 +247,14 @@ func checkHistory(rt fataler, rec *evid.Rec, h *resgen.History, cnt *c02Counters
 					rec.Class("fail-kind-other:" + exp.FailKind + "->" + o.Info.Root)
 				}
 			} else {
+				if o.Res.Err != nil && isFR2Failure(e, o) {
+					// known finding FR2 (interpreter: slab sizes go stale after a nested mutation through an
+					// index-derived reference): with validation off the stale size surfaces later as an atree
+					// error. The model cannot follow a history whose transaction failed: stop judging it.
+					rec.Excluded("FR2")
+					rec.Case(false, h.Prog.Key())
+					return
+				}
 				if o.Res.Err != nil {
 					fail(e, i, "model expects success but the transaction failed (%s): %s", o.Info.Class, errText(o.Res))
 				}
@@ -301,4 +309,16 @@ func checkHistory(rt fataler, rec *evid.Rec, h *resgen.History, cnt *c02Counters
 			"last_tx": h.Prog.Steps[len(h.Prog.Steps)-1].Source, "stats": fmt.Sprintf("%+v", h.Stats)})
 	}
 	_ = strings.Join
+}
+
+// isFR2Failure recognises the run-time face of finding FR2 (only while it is listed as known,
+// i.e. while the checks run without atree validation): an interpreter-only external atree
+// error about slab sizes.
+func isFR2Failure(e host.Engine, o stepObs) bool {
+	if !noAtreeValidation || e != host.Interp || o.Info.Class != "external" {
+		return false
+	}
+	msg := o.Res.Err.Error()
+	return strings.Contains(msg, "slab failed to split") || strings.Contains(msg, "header size") ||
+		strings.Contains(msg, "slab failed to merge")
 }
